@@ -26,7 +26,12 @@ TRUSTED_ASYNCIO = ["asyncio-mode family: hand-written Lean model AsynqModel.Lib.
 ASSUMPTIONS_CORE = [
     "user flush code answers each item independently of batch composition (itemVal / item modes)",
     "task bodies are first-order programs of the model language (success/failure branching only)",
-    "failures are Exceptions (BaseException such as KeyboardInterrupt is out of scope)",
+    "failures are exception OBJECTS delivered by identity; the machine (and so every theorem) does not distinguish their classes. "
+    "Classes CPython or asynq treat specially - application errors deriving from BaseException only, KeyboardInterrupt, SystemExit, "
+    "StopIteration, GeneratorExit, AsyncTaskCancelledError - are exercised by the interpreter's error tokens and by the family "
+    "`exotic` (C02: stored as the task's failure and delivered at the yield, which is what `except BaseException` in "
+    "async_task.py does on purpose), by direct expectation only; a KeyboardInterrupt raised asynchronously by a signal INSIDE "
+    "scheduler code is out of scope",
 ]
 
 
@@ -84,31 +89,66 @@ def run_chain(case):
         v = yield chain.asynq(k - 1)
         return v + 1
 
+    import sys
+    old_limit = sys.getrecursionlimit()
+    # the interpreter's DEFAULT limit (the worker raises it to 12 000 for deeply nested programs, which would let a scheduler
+    # that recurses once per chain level pass every quick-tier chain)
+    sys.setrecursionlimit(1000)
+    limit = sys.getrecursionlimit()
     asynq.scheduler.reset()
     try:
-        v = chain(n)
-        res = ["ok", v - 7, flushes[0]]
-    except RecursionError:
-        res = ["recursion-error", 0, flushes[0]]
-    except Exception as e:
-        res = ["error-" + type(e).__name__, 0, flushes[0]]
+        try:
+            v = chain(n)
+            res = ["ok", v - 7, flushes[0]]
+        except RecursionError:
+            res = ["recursion-error", 0, flushes[0]]
+        except Exception as e:
+            res = ["error-" + type(e).__name__, 0, flushes[0]]
+    finally:
+        sys.setrecursionlimit(old_limit)
     sched = asynq.scheduler.get_scheduler()
-    clean = 1 if (len(sched._tasks) == 0 and sched.active_task is None) else 0
+    clean = "(clean %d %d %d)" % sched_state(sched)
     asynq.scheduler.reset()
-    lines = ["(case chain %d %d %s)" % (case["id"], n, case["kind"]), "(result %s %d %d %d)" % (res[0], res[1], res[2], clean), "(end)"]
+    lines = ["(case chain %d %d %s)" % (case["id"], n, case["kind"]), "(result %s %d %d %s (limit %d))" % (res[0], res[1], res[2], clean, limit), "(end)"]
     return {"lines": lines, "features": ["chain<=%d" % next(b for b in (100, 1000, 10000, 10**9) if n <= b)],
             "nontrivial": "chain-%d-%s" % (n, case["kind"])}
 
 
-def ctxraise_case(when, nest, handler, sibling):
-    return {"special": "ctxraise", "when": when, "nest": nest, "handler": handler, "sibling": sibling}
+def ctxraise_case(when, nest, handler, sibling, second=0):
+    return {"special": "ctxraise", "when": when, "nest": nest, "handler": handler, "sibling": sibling, "second": second}
 
 
-def run_ctxraise(case):
+def ctxraise_cases(two_hooks=False):
+    """every combination of the raising hook (pause at the first suspension / resume at the first continuation), the nesting
+    with a well-behaved context, a handler in the awaiting task and a sibling; `two_hooks`: also the cases in which the
+    well-behaved context's pause() raises a SECOND error while generator.close() leaves the blocks of the task that the
+    raising resume() has just failed (second audit, item 2; C08 only)"""
+    res = [ctxraise_case(w, n, h, sb) for w in ("pause", "resume") for n in (0, 1, 2) for h in (0, 1) for sb in (0, 1)]
+    if two_hooks:
+        res += [ctxraise_case(w, n, h, sb, 1) for w in ("pause", "resume") for n in (1, 2) for h in (0, 1) for sb in (0, 1)]
+    return res
+
+
+def sched_state(sched):
+    """what "the scheduler is clean" means for the direct-expectation families: no task on the stack, no active task, and no
+    batch left scheduled (entries of `_batches`, and the LIVE ones among them: unflushed and non-empty - an already flushed or
+    empty entry is dropped by the next _select_batch_to_flush, a live one is flushed by the next computation)"""
+    clean = 1 if (len(sched._tasks) == 0 and sched.active_task is None) else 0
+    nb = len(sched._batches)
+    live = sum(1 for b in sched._batches if b.items and not b.is_flushed())
+    return clean, nb, live
+
+
+let_timeouts_through = corefam4.let_timeouts_through
+
+
+def run_ctxraise(case, pid="C08"):
     """a context whose pause() or resume() raises while the scheduler suspends / continues the task that entered it
     (C08: failure points 'context pause/resume'; C06).  Outside the machine's language (its contexts never raise
-    except NonAsyncContext), so the expectation is stated directly: the task fails with THAT exception, a parent with
-    try/except can handle it, nothing else escapes, and the scheduler is clean afterwards."""
+    except NonAsyncContext), so the expectation is stated directly (lean/Driver.lean, mode ctxraise): the task fails with
+    THAT exception, a parent with try/except can handle it, nothing else escapes, the scheduler is clean afterwards (tasks,
+    active task, batches), the next computation works; and (C06) the well-behaved context next to the raising one and the
+    raising one itself got exactly the alternating resume/pause calls the case prescribes - each pause once."""
     import asynq
     from asynq import batching, contexts
 
@@ -129,12 +169,15 @@ def run_ctxraise(case):
     cur = [None]
     cur[0] = B()
     boom = RuntimeError("context hook raises")
+    boom2 = RuntimeError("pause() of the well-behaved context raises while the generator is closed")
     log = []
+    raising = []
 
     class Raising(contexts.AsyncContext):
         def __init__(self):
             self.resumes = 0
             self.pauses = 0
+            raising.append(self)
 
         def resume(self):
             self.resumes += 1
@@ -152,6 +195,8 @@ def run_ctxraise(case):
 
         def pause(self):
             log.append("P")
+            if case.get("second") and log.count("P") == 2:
+                raise boom2
 
     @asynq.asynq()
     def inner():
@@ -179,7 +224,7 @@ def run_ctxraise(case):
             try:
                 yield futs
             except RuntimeError as e:
-                return "handled" if e is boom else "handled-other"
+                return "handled" if e is boom else "handled-boom2" if e is boom2 else "handled-other"
             return "no-error"
         yield futs
         return "no-error"
@@ -189,19 +234,24 @@ def run_ctxraise(case):
     try:
         out = root()
     except BaseException as e:
-        out = "raised-boom" if e is boom else "raised-" + type(e).__name__
-    clean = 1 if (len(sched._tasks) == 0 and sched.active_task is None) else 0
+        let_timeouts_through(e)
+        out = "raised-boom" if e is boom else "raised-boom2" if e is boom2 else "raised-" + type(e).__name__
+    clean, nbatches, nlive = sched_state(sched)
     # the next computation on the same thread
     try:
         nxt = other()
     except BaseException as e:
+        let_timeouts_through(e)
         nxt = "raised-" + type(e).__name__
     ok_next = 1 if nxt == 2 else 0
     asynq.scheduler.reset()
-    lines = ["(case ctxraise %d %s %d %d %d)" % (case["id"], case["when"], case["nest"], case["handler"], case["sibling"]),
-             "(result %s %d %d)" % (out, clean, ok_next), "(end)"]
-    return {"lines": lines, "features": ["ctxraise=" + case["when"]], "nontrivial": "ctxraise-%s-%d-%d-%d" % (
-        case["when"], case["nest"], case["handler"], case["sibling"])}
+    rs = raising[0] if raising else None
+    lines = ["(case ctxraise %d %s %d %d %d %d %s)" % (case["id"], case["when"], case["nest"], case["handler"], case["sibling"],
+                                                      1 if case.get("second") else 0, pid),
+             "(result %s %d (batches %d %d) %d (plain %s) (raising %d %d))" % (
+                 out, clean, nbatches, nlive, ok_next, " ".join(log), rs.resumes if rs else 0, rs.pauses if rs else 0), "(end)"]
+    return {"lines": lines, "features": ["ctxraise=" + case["when"]] + (["ctxraise-two-hooks"] if case.get("second") else []),
+            "nontrivial": "ctxraise-%s-%d-%d-%d-%d" % (case["when"], case["nest"], case["handler"], case["sibling"], 1 if case.get("second") else 0)}
 
 
 def cancel_case(na, nb, handler, with_error):
@@ -276,12 +326,13 @@ def run_cancel(case):
     try:
         out = root()
     except BaseException as e:
+        let_timeouts_through(e)
         ok = (e is boom) if case["with_error"] else isinstance(e, batching.BatchCancelledError)
         out = "raised-cancel" if ok else "raised-" + type(e).__name__
-    clean = 1 if (len(sched._tasks) == 0 and sched.active_task is None) else 0
+    clean = "(clean %d %d %d)" % sched_state(sched)
     asynq.scheduler.reset()
     lines = ["(case cancelfam %d %d %d %d %d)" % (case["id"], case["na"], case["nb"], case["handler"], case["with_error"]),
-             "(result %s %d (%s))" % (out, clean, " ".join(log)), "(end)"]
+             "(result %s %s (%s))" % (out, clean, " ".join(log)), "(end)"]
     return {"lines": lines, "features": ["cancel"], "nontrivial": "cancel-%d-%d-%d-%d" % (case["na"], case["nb"], case["handler"], case["with_error"])}
 
 
@@ -337,11 +388,12 @@ def run_reflush(case):
         out = root()
         out = "ok" if out == 2 * sum(range(case["n"])) and nested_values == [2 * (100 + d) for d in reversed(range(case["depth"]))] else "wrong-value"
     except BaseException as e:
+        let_timeouts_through(e)
         out = "raised-" + type(e).__name__
-    clean = 1 if (len(sched._tasks) == 0 and sched.active_task is None) else 0
+    clean = "(clean %d %d %d)" % sched_state(sched)
     asynq.scheduler.reset()
     lines = ["(case reflush %d %d %d)" % (case["id"], case["n"], case["depth"]),
-             "(result %s %d (%s))" % (out, clean, " ".join(log)), "(end)"]
+             "(result %s %s (%s))" % (out, clean, " ".join(log)), "(end)"]
     return {"lines": lines, "features": ["reflush"], "nontrivial": "reflush-%d-%d" % (case["n"], case["depth"])}
 
 
@@ -403,6 +455,7 @@ def run_overlap(case):
     try:
         out = "ok" if task() == 1 else "wrong-value"
     except BaseException as e:
+        let_timeouts_through(e)
         out = "raised-" + type(e).__name__
     asynq.scheduler.reset()
     lines = ["(case overlap %d %d)" % (case["id"], 1 if case["extra"] else 0), "(result %s (%s))" % (out, " ".join(log)), "(end)"]
@@ -438,17 +491,30 @@ def run_resetbetween(case):
     task = outer.asynq()
     for _ in range(case["resets"]):
         asynq.scheduler.reset()
+    t_inner, v = None, "none"
     try:
         t_inner, v = task.value()
-        exp = [task, t_inner, task] + (["SKIP", "after-sync", task] if case["sync"] else [])
-        ok = len(seen) == len(exp) and all(e == "SKIP" or (s is e if not isinstance(e, str) else s == e) for s, e in zip(seen, exp))
-        out = "ok" if ok and v == 1 else "wrong-active-task"
+        out = "returned"
     except BaseException as e:
+        let_timeouts_through(e)
         out = "raised-" + type(e).__name__
+
+    def tok(x):
+        # identities as tokens: T the task under test, I the task it awaited, N no active task, new another AsyncTask
+        if isinstance(x, str):
+            return x
+        if x is None:
+            return "N"
+        if x is task:
+            return "T"
+        if t_inner is not None and x is t_inner:
+            return "I"
+        return "new" if isinstance(x, asynq.AsyncTask) else "other"
     sched = asynq.scheduler.get_scheduler()
-    clean = 1 if (len(sched._tasks) == 0 and sched.active_task is None) else 0
+    clean = "(clean %d %d %d)" % sched_state(sched)
     asynq.scheduler.reset()
-    lines = ["(case resetbetween %d %d %d)" % (case["id"], case["resets"], 1 if case["sync"] else 0), "(result %s %d)" % (out, clean), "(end)"]
+    lines = ["(case resetbetween %d %d %d)" % (case["id"], case["resets"], 1 if case["sync"] else 0),
+             "(result %s (seen %s) %s %s)" % (out, " ".join(tok(x) for x in seen), v if isinstance(v, int) else "none", clean), "(end)"]
     return {"lines": lines, "features": ["reset-between"], "nontrivial": "resetbetween-%d-%s" % (case["resets"], case["sync"])}
 
 
@@ -461,6 +527,13 @@ def run_longloop(case):
     import asynq
     n = case["n"]
     resumed = [0, 0]
+    depth = [0, 0]      # deepest interpreter stack seen when the loop task is resumed / when a task of the chain starts
+
+    def stack_depth():
+        f, d = sys._getframe(1), 0
+        while f is not None:
+            f, d = f.f_back, d + 1
+        return d
 
     @asynq.asynq()
     def one():
@@ -469,9 +542,11 @@ def run_longloop(case):
     @asynq.asynq()
     def loop_task(shared):
         total = 0
-        for _ in range(n):
+        for i in range(n):
             total += yield shared
             resumed[0] += 1
+            if i % 64 == 0 or i == n - 1:
+                depth[0] = max(depth[0], stack_depth())
         return total
 
     @asynq.asynq()
@@ -484,6 +559,8 @@ def run_longloop(case):
 
     @asynq.asynq()
     def chain(k):
+        if k % 64 == 0:
+            depth[1] = max(depth[1], stack_depth())
         if k == 0:
             return 0
         return 1 + (yield chain.asynq(k - 1))
@@ -497,16 +574,24 @@ def run_longloop(case):
 
     old = sys.getrecursionlimit()
     sys.setrecursionlimit(1000)
+    limit = sys.getrecursionlimit()
     asynq.scheduler.reset()
+    vals = ("none", "none", "none")
     try:
         try:
-            out = "ok" if root() == (n, n, n) else "wrong-value"
+            r = root()
+            out = "returned"
+            if isinstance(r, tuple) and len(r) == 3 and all(isinstance(x, int) for x in r):
+                vals = r
         except BaseException as e:
+            let_timeouts_through(e)
             out = "raised-" + type(e).__name__
     finally:
         sys.setrecursionlimit(old)
     asynq.scheduler.reset()
-    lines = ["(case longloop %d %d)" % (case["id"], n), "(result %s %d %d)" % (out, resumed[0], resumed[1]), "(end)"]
+    lines = ["(case longloop %d %d)" % (case["id"], n),
+             "(result %s (values %s %s %s) (resumed %d %d) (limit %d) (depth %d %d))" % (
+                 (out,) + tuple(vals) + (resumed[0], resumed[1], limit, depth[0], depth[1])), "(end)"]
     return {"lines": lines, "features": ["longloop"], "nontrivial": "longloop-%d" % n}
 
 
@@ -599,19 +684,40 @@ def run_exotic(case):
 
     log = []
 
+    def vsx(v):
+        # what arrived, as a structure (judged by the driver against the structure the header prescribes)
+        if v is None:
+            return "none"
+        if isinstance(v, bool):
+            return "(other bool)"
+        if isinstance(v, int):
+            return str(v)
+        if type(v) is tuple:
+            return "(tup%s)" % "".join(" " + vsx(x) for x in v)
+        if type(v) is list:
+            return "(lst%s)" % "".join(" " + vsx(x) for x in v)
+        if type(v) is dict:
+            return "(dict%s)" % "".join(" (%s %s)" % (k, vsx(x)) for k, x in v.items())
+        return "(other %s)" % type(v).__name__
+
+    def esx(tag, e):
+        # an exception as (tag <class name> <is it THE error object: 1/0>)
+        return "(%s %s %d)" % (tag, type(e).__name__, 1 if e is err else 0)
+
     @asynq.asynq()
     def root():
-        ok_struct, ok_vals = build(False)
+        ok_struct, _ = build(False)
         got = yield ok_struct
-        log.append("values-ok" if (got == ok_vals and type(got) is type(ok_vals)) else "values-wrong")
+        log.append("(values %s)" % vsx(got))
         bad_struct, _ = build(True)
         try:
             yield bad_struct
-            log.append("no-error-raised")
+            log.append("(no-error)")
         except BaseException as e:
-            log.append("same-error" if e is err else "other-error-%s" % type(e).__name__)
+            let_timeouts_through(e)
+            log.append(esx("caught", e))
         got = yield ok_struct
-        log.append("values-ok" if got == ok_vals else "values-wrong")
+        log.append("(values %s)" % vsx(got))
         return 7
 
     @asynq.asynq()
@@ -626,22 +732,25 @@ def run_exotic(case):
 
     asynq.scheduler.reset()
     try:
-        out = "ok" if root() == 7 else "wrong-value"
+        r = root()
+        out = "(returned %s)" % vsx(r)
     except BaseException as e:
-        out = "raised-" + type(e).__name__
+        let_timeouts_through(e)
+        out = esx("raised", e)
     if ename in ("GeneratorExit", "StopIteration"):
         # a generator that ends with a plain GeneratorExit counts as `return None` (by design), and CPython turns a
-        # StopIteration leaving a generator into RuntimeError: not the statement's business
-        log.append("uncaught-skipped")
+        # StopIteration leaving a generator into RuntimeError: not the statement's business (the driver expects the skip)
+        log.append("(skipped)")
     else:
         asynq.scheduler.reset()
         try:
             v = root_uncaught()
-            log.append("uncaught-swallowed-value-%s" % ("none" if v is None else type(v).__name__))
+            log.append("(swallowed %s)" % vsx(v))
         except BaseException as e:
-            log.append("uncaught-same-error" if e is err else "uncaught-other-error-%s" % type(e).__name__)
+            let_timeouts_through(e)
+            log.append(esx("uncaught", e))
     asynq.scheduler.reset()
-    lines = ["(case exotic %d %s %s)" % (case["id"], ename, src), "(result %s (%s))" % (out, " ".join(log)), "(end)"]
+    lines = ["(case exotic %d %s %s %s)" % (case["id"], ename, src, shape), "(result %s (%s))" % (out, " ".join(log)), "(end)"]
     return {"lines": lines, "features": ["exotic-" + ename, "shape-" + shape], "nontrivial": "exotic-%s-%s-%s-%d" % (shape, ename, src, pos)}
 
 
@@ -788,7 +897,7 @@ def run_case_for(pid, case):
     if case.get("special") == "chain":
         return run_chain(case)
     if case.get("special") == "ctxraise":
-        return run_ctxraise(case)
+        return run_ctxraise(case, pid)
     if case.get("family"):
         # structured stress programs are kept compact in the case and expanded here (they nest thousands of levels deep)
         fam = case["family"]
@@ -904,7 +1013,97 @@ def guard_cases(tier, rng, quick_n=60, thorough_n=1500):
     return res
 
 
-def signature_for(case, v):
+def guard_ctx_cases(tier, rng, quick_n=120, thorough_n=2500):
+    """the guard family for the context properties C06 / C07: programs with AsyncContexts and scoped-value overrides that hit
+    the MAX_TASK_STACK_SIZE guard while a with-block is open, followed by further computations on the same thread that read
+    the overridden variables (second audit, item 1: the guard's reset abandons the open blocks - contexts stay resumed,
+    overrides stay in force; reported with the signature suffix /after-MAX_TASK_STACK_SIZE-reset)"""
+    res = []
+    n = quick_n if tier == "quick" else thorough_n
+    for i in range(n):
+        if i % 4 == 3:
+            res.append(guard_nested_family(rng))
+            continue
+        if i % 3 == 0:
+            c = coregen.override_family(rng)
+            # later computations on the same thread read both variables
+            c["tops"] += [["value", ["read", 0, ["read", 1, ["ret", 7]]]]] * rng.choice([1, 2])
+        else:
+            c = coregen.gen_case(rng, rng.choice(["yield_ctx", "full", "full"]), ntops=rng.choice([1, 2, 3]))
+            if rng.random() < 0.5:
+                c["tops"].append(["value", ["read", 0, ["read", 1, ["ret", 7]]]])
+        c["cfg"]["maxStack"] = rng.choice([1, 2, 3, 4, 6, 9])
+        res.append(c)
+    return res
+
+
+def guard_nested_family(rng):
+    """the guard fires inside a NESTED synchronous call whose caller catches the RuntimeError and goes on (yields nothing / a
+    constant / a new item, or calls again) while a task awaiting the caller holds a context: tasks abandoned by the reset keep
+    `_dependencies_scheduled` and resumed contexts, which later steps of the same computation meet (C06 context-active-...,
+    C20 the extra pause/resume pair under KEEP_DEPENDENCIES)"""
+    nitems = rng.randint(1, 4)
+    deep = ["yld", [rng.choice(["tup", "lst"])] + [["f", ["own", i]] for i in range(nitems)], ["ret", 5], ["ret", 6]]
+    for i in reversed(range(nitems)):
+        deep = ["item", 0, i + 1, "ok", deep]
+    if rng.random() < 0.3:      # ... or a chain of tasks instead of a wide yield
+        deep = ["ret", 1]
+        for _ in range(rng.randint(1, 4)):
+            deep = ["spawn", deep, [], ["yld", ["f", ["own", 0]], ["ret", 2], ["reraise"]]]
+    first = rng.random() < 0.7      # the caller has been suspended once before it calls (so its awaiter was paused and resumed)
+    nown = 1 if first else 0
+    after_err = rng.choice([
+        ["yld", "none", ["ret", 2], ["ret", 3]],
+        ["const", 4, ["yld", ["f", ["own", nown]], ["ret", 2], ["ret", 3]]],
+        ["item", 0, 8, "ok", ["yld", ["f", ["own", nown]], ["ret", 2], ["ret", 3]]],
+        ["ret", 2],
+        ["active", ["yld", "none", ["read", 0, ["ret", 2]], ["ret", 3]]],
+    ])
+    caller = ["sync", deep, [], ["ret", 1], after_err]
+    if first:
+        caller = ["item", 0, 7, "ok", ["yld", ["f", ["own", 0]], caller, ["ret", 4]]]
+    kind = rng.choice([["plain"], ["plain"], ["override", 0, 5], ["override", 1, 6]])
+    root = ["with", kind, ["spawn", caller, [], ["yld", ["f", ["own", 0]], ["endwith"], ["endwith"]]], ["read", 0, ["read", 1, ["ret", 9]]]]
+    if rng.random() < 0.3:      # one more awaiting level
+        root = ["spawn", root, [], ["yld", ["f", ["own", 0]], ["ret", 1], ["reraise"]]]
+    tops = [[rng.choice(["value", "call"]), root]] + [["value", ["read", 0, ["read", 1, ["ret", 7]]]]] * rng.choice([0, 1])
+    return {"cfg": {"kinds": {}, "salt": rng.randrange(1000000), "maxStack": rng.choice([2, 3, 4, 4, 5, 6])}, "profile": "guard-nested", "tops": tops}
+
+
+GUARD_SUFFIX = "/after-MAX_TASK_STACK_SIZE-reset"
+STALE_BATCH_SIGNATURE = "fail:scheduler-retains-pending-batch/program-with-NonAsyncContext"
+# Clauses of the observers checkC06 / checkC07 (Core/Spec.lean) that one root cause produces once the guard has reset the
+# scheduler while with-blocks of the abandoned tasks are open (the reset neither pauses their contexts nor closes their
+# generators): the contexts stay resumed / the overrides stay in force, which the observers report - depending on what the
+# thread does next - at the `ret` of the failed computation (context-left-active), at the next task step or flush of a
+# caller that caught the RuntimeError (context-active-...), when an abandoned task is continued after all (resume-twice),
+# or at a later pause / read / end-of-run value dump (C07).  They share ONE signature, the root clause + the suffix.
+GUARD_ROOT_CLAUSE = "fail:context-left-active"
+GUARD_CONSEQUENCES = {
+    "C06": {"fail:context-left-active", "fail:context-active-while-unrelated-task-runs", "fail:context-active-during-flush",
+            "fail:resume-twice"},
+    "C07": {"fail:context-left-active", "fail:pause-not-innermost", "fail:scoped-read-differs-from-sequential",
+            "fail:override-not-restored"},
+}
+
+
+def guard_fired(case, v):
+    """the driver marks a run in which the implementation's trace shows the RuntimeError of the MAX_TASK_STACK_SIZE guard
+    (Drv/Core.lean guardMark) and says whether the rejected event is that one or a later one"""
+    d = v.get("detail") or ""
+    return case.get("cfg", {}).get("maxStack") is not None and "[guard-reset]" in d and "[spec-after-reset]" in d
+
+
+def guard_suffix(case, v):
+    """suffix of the signature of a failure AFTER the guard reset.  A recorded finding may only explain a run in which the
+    Lean machine shows the very same behaviour (CORR=ok and the model's own trace fails the same clause): anything else keeps
+    a signature of its own (`/model-disagrees`), so a changed implementation cannot hide behind the finding."""
+    if v.get("corr") == "ok" and v.get("specm") == v.get("spec"):
+        return GUARD_SUFFIX
+    return GUARD_SUFFIX + "/model-disagrees"
+
+
+def signature_for(case, v, pid=None):
     if case.get("special") == "c15":
         from checks import c15
         return "asyncio-mode/" + c15.signature(case["inner"], v)
@@ -917,10 +1116,19 @@ def signature_for(case, v):
         return sig + "/" + case["via"] + ("-tolerated" if case.get("tolerate") else "")
     if case.get("family"):
         return sig + "/" + case["family"][0]
+    if case.get("special") == "ctxraise" and sig == "fail:scheduler-retains-pending-batch":
+        # the OPEN C08 finding (a task failed while suspended by a context error leaves the batch of the item it awaited in
+        # TaskScheduler._batches): same root cause, same signature as for programs of the machine's language
+        return STALE_BATCH_SIGNATURE
     if not case.get("special") and "nonasync" in json.dumps(case.get("tops")):
         sig += "/program-with-NonAsyncContext"
-    if not case.get("special") and case.get("cfg", {}).get("maxStack") is not None and "active-task" in sig:
-        sig += "/after-MAX_TASK_STACK_SIZE-reset"
+    if not case.get("special") and guard_fired(case, v):
+        # what fails + the circumstance: the guard has reset the scheduler earlier in this run
+        if v["spec"] in GUARD_CONSEQUENCES.get(pid, ()):
+            sig = sig.replace(v["spec"], GUARD_ROOT_CLAUSE, 1)
+        sig += guard_suffix(case, v)
+    elif not case.get("special") and case.get("cfg", {}).get("maxStack") is not None and "active-task" in sig:
+        sig += GUARD_SUFFIX
     return sig
 
 
